@@ -32,6 +32,7 @@ struct RunState {
     long regions = 0, racePairs = 0, tasksTotal = 0;
     Stats agg;
     std::set<uint64_t> taskKindsInverted;
+    std::map<long, std::set<int>> kernelIndexWorkers;
     explicit RunState(Ctx& c, const Scenario& s) : ctx(c), sc(s) {}
 
     void drain(const std::string& origin) {
@@ -61,6 +62,8 @@ void addStats(Stats& a, const Stats& b) {
     a.prioInversions += b.prioInversions; a.scribbles += b.scribbles; a.teamSmaller += b.teamSmaller; a.stuck += b.stuck;
 }
 
+void checkKernelObjects(RunState& rs, IWorld& w, const std::string& origin);
+
 // one execute() (or top-tree execute) with all per-call oracles
 void doExecute(RunState& rs, IWorld& w, const HistOp& op, bool simulate, const std::string& origin) {
     Ctx& ctx = rs.ctx;
@@ -83,7 +86,7 @@ void doExecute(RunState& rs, IWorld& w, const HistOp& op, bool simulate, const s
     ctx.sim.observed.clear();
     ctx.sim.errors.clear();
     ctx.sim.stats = Stats();
-    if (simulate) ctx.sim.maxThreads = rs.sc.threadsExec;
+    if (simulate) ctx.sim.maxThreads = op.threads > 0 ? op.threads : rs.sc.threadsExec;
     const long live0 = liveAllocations();
     setStage(simulate ? "task-execute" : "seq-execute");
     w.execute(op.flags);
@@ -98,6 +101,7 @@ void doExecute(RunState& rs, IWorld& w, const HistOp& op, bool simulate, const s
         addStats(rs.agg, ctx.sim.stats);
         for (auto& e : ctx.sim.errors) rs.fwErrors.push_back(e);
         for (const auto& tp : ctx.sim.tasks) if (tp->state != 2) { ctx.addViolation("quiescence", "task-not-run", "execute() returned while " + ctx.sim.taskLabel(tp->id) + " had not run"); break; }
+        checkKernelObjects(rs, w, origin);
         if (live0 >= 0 && live1 != live0)
             ctx.addViolation("quiescence", "live-allocations", "execute() changed the number of live heap blocks allocated by the library from " + std::to_string(live0) + " to " + std::to_string(live1));
     }
@@ -110,17 +114,22 @@ void runHistory(RunState& rs, IWorld& w, const std::vector<HistOp>& history, boo
     }
 }
 
+// Oracle C (documented guarantee "each kernel is called by only one thread"): evaluated after every simulated execute.
+// Kernel objects are identified by their position in the executor's kernel list (the vector may be reallocated when the
+// thread count grows between two execute() calls, so addresses are only meaningful within one call).
 void checkKernelObjects(RunState& rs, IWorld& w, const std::string& origin) {
     Ctx& ctx = rs.ctx;
     std::vector<const void*> objs;
     w.kernelObjects(objs);
-    std::set<const void*> known(objs.begin(), objs.end());
-    int ordinal = 0;
     for (auto& kv : ctx.kernelWorkers) {
-        if (!known.count(kv.first)) ctx.addViolation("kernel-sharing", "foreign-object", "a kernel callback ran on an object that is not one of the executor's " + std::to_string(objs.size()) + " kernel objects");
-        if (kv.second.size() > 1) ctx.addViolation("kernel-sharing", "two-workers", "kernel object #" + std::to_string(ordinal) + " was used by " + std::to_string(kv.second.size()) + " different workers within one run");
-        ++ordinal;
+        long idx = -1;
+        for (size_t i = 0; i < objs.size(); ++i) if (objs[i] == kv.first) idx = long(i);
+        if (idx < 0) { ctx.addViolation("kernel-sharing", "foreign-object", "a kernel callback ran on an object that is not one of the executor's " + std::to_string(objs.size()) + " kernel objects"); continue; }
+        auto& ws = rs.kernelIndexWorkers[idx];
+        ws.insert(kv.second.begin(), kv.second.end());
+        if (ws.size() > 1) ctx.addViolation("kernel-sharing", "two-workers", "kernel object #" + std::to_string(idx) + " was used by " + std::to_string(ws.size()) + " different workers within one run");
     }
+    ctx.kernelWorkers.clear();
     rs.drain(origin);
 }
 
@@ -197,6 +206,7 @@ void recipeExec(RunState& rs) {
         world->buildTree();
         ctx.view = &world->view();
         ctx.kernelWorkers.clear();
+        rs.kernelIndexWorkers.clear();
         world->makeAlgo();
         runHistory(rs, *world, sc.history, sc.isTaskBased(), "run");
         setStage("compare");
@@ -221,9 +231,20 @@ void recipeExec(RunState& rs) {
                 // the reference needs the weight layout only for values; counts are layout independent
                 RefValues ref = refEvaluate(ctx, world->view(), flagSeq);
                 static const char* names[7] = {"P2M", "M2M", "M2L", "L2L", "L2P", "P2P", "P2PInner"};
+                // did the thread count grow after the first execute?  (new per-thread kernels are then copies of a used one)
+                bool grew = false;
+                {
+                    int most = sc.threadsCtor, nExec = 0;
+                    for (const HistOp& op : sc.history) if (op.op == "execute") {
+                        const int t = op.threads > 0 ? op.threads : sc.threadsExec;
+                        if (nExec > 0 && t > most) grew = true;
+                        if (t > most) most = t;
+                        ++nExec;
+                    }
+                }
                 for (int k = 0; k < 7; ++k)
                     if (merged[size_t(k)] != ref.counts[size_t(k)])
-                        ctx.addViolation("counter", names[k], std::string("merged ") + names[k] + " counter is " + std::to_string(merged[size_t(k)]) + " but the tree implies " + std::to_string(ref.counts[size_t(k)]) + " (" + std::to_string(per.size()) + " kernel copies)");
+                        ctx.addViolation("counter", std::string(names[k]) + (grew && sc.isTaskBased() ? "@threads-grew" : ""), std::string("merged ") + names[k] + " counter is " + std::to_string(merged[size_t(k)]) + " but the tree implies " + std::to_string(ref.counts[size_t(k)]) + " (" + std::to_string(per.size()) + " kernel copies)");
                 rs.drain("run");
             }
         }
